@@ -256,10 +256,21 @@ theorem lookupBy_fold_updStep (ids : List Id) (m : List (Id × Md)) (mds : List 
       simp only [h, if_false, dget, h']
 
 theorem castMd_map_some (mds : List Md) :
-    castMd (some (mds.map some)) = if mds.isEmpty then none else some mds := by
-  cases mds with
-  | nil => simp [castMd]
-  | cons x xs => simp [castMd, Function.comp_def]
+    castMd (some (mds.map some)) = if mds.all (·.isEmpty) then none else some mds := by
+  simp [castMd, List.all_map, Function.comp_def]
+
+/-- by (ID, key) lookups the collapse of an all-empty tuple is invisible -/
+theorem lookup_collapsed (ids : List Id) (L : List Md) (id : Id) (k : String) :
+    (((if L.all (·.isEmpty) then none else some L : Option (List Md)).bind (fun md => lookupBy ids md id)).bind
+        (fun e => dget e k)) = (lookupBy ids L id).bind (fun e => dget e k) := by
+  by_cases h : L.all (·.isEmpty) = true
+  · simp only [h, if_true, Option.bind_none]
+    cases hl : lookupBy ids L id with
+    | none => rfl
+    | some e =>
+      have he := List.all_eq_true.mp h e (lookupBy_mem _ _ _ _ hl)
+      rw [List.isEmpty_iff.mp he]; rfl
+  · simp [h]
 
 theorem md_setMd_same (t : Table α) (ax : Axis) (m : Option (List Md)) : (setMd t ax m).md ax = m := by
   cases ax <;> rfl
